@@ -89,3 +89,12 @@ Example C19_bdef_bad_bytes :
   bdef_from_blob [9; 255;255;255;255; 0;0;0;0; 0;0;1;1; 0;0;0;0;0;0;0;0; 0;0;0;0;0;0;0;0; 0;0;0;0]%N = Err /\
   bdef_from_blob [9; 0;0;0;1]%N = Err.
 Proof. repeat split; vm_compute; reflexivity. Qed.
+
+Theorem C19_versatiles_header_total : forall l, soft (hdr_from_blob l).
+Proof. exact hdr_from_blob_soft. Qed.
+Print Assumptions C19_versatiles_header_total.
+
+From VT Require Import Model.PMHeader Proofs.PMHeaderProofs.
+Theorem C19_pmtiles_header_total : forall l, soft (pmh_deserialize l).
+Proof. exact pmh_deserialize_soft. Qed.
+Print Assumptions C19_pmtiles_header_total.
